@@ -3,6 +3,7 @@
 package c06
 
 import (
+	"os"
 	"bytes"
 	"context"
 	"encoding/json"
@@ -187,11 +188,48 @@ func (w *world) establishMinted(variant int) string {
 	return w.honestResume(s, 0)
 }
 
+func (w *world) establishInheritedKeyless() string {
+	inhSeq++
+	sid := fmt.Sprintf("fam-%d-%d", os.Getpid(), inhSeq)
+	_ = os.Setenv("CONDOR_INHERIT", "4242 <127.0.0.1:9699>")
+	_ = os.Setenv("CONDOR_PRIVATE_INHERIT", "FamilySessionKey:"+sid+`#[CryptoMethodsList="AES";Encryption="YES";]`)
+	security.VerifResetProcessState()
+	scache := ownCache
+	if scache == nil {
+		scache = security.GetSessionCache() // first use: registers what was inherited
+	} else if _, err := security.VerifRegisterInherited(scache); err != nil {
+		return "C06 harness: registering inherited sessions: " + err.Error()
+	}
+	_ = os.Unsetenv("CONDOR_INHERIT")
+	_ = os.Unsetenv("CONDOR_PRIVATE_INHERIT")
+	ccfg := kit.BaseConfig(security.SecurityRequired, security.SecurityOptional, security.AuthClaimToBe)
+	ccfg.PeerName = "<127.0.0.1:9699>"
+	ccfg.SessionID = sid
+	s := &sess{sid: sid, hasKey: false, authed: true, user: "condor@family", alive: true, ccfg: ccfg}
+	if e := findEntry(sid); e != nil && e.KeyInfo() != nil {
+		s.key = append([]byte(nil), e.KeyInfo().Data...) // (whatever the library made up: the model still says "no key")
+	}
+	w.sessions = append(w.sessions, s)
+	return ""
+}
+
+var inhSeq int
+
 func (w *world) establish(variant int) string {
 	// 0-3: negotiated with CLAIMTOBE or no authentication; 4-5: minted from a claim id; 6-7: negotiated with
 	// TOKEN authentication (which leaves its own 32-byte exchange secret on the negotiation even when no
 	// cipher is agreed: such a session carries no key to protect a stream with and is never resumed)
-	variant %= 8
+	variant %= 9
+	if variant == 8 {
+		// 8: a family session inherited through the environment WITHOUT key material: there is nothing to derive a
+		// key from, so no session that could ever be resumed comes of it (only as the first session of a history:
+		// the inheritance state is process-wide)
+		if len(w.sessions) > 0 {
+			variant = 0
+		} else {
+			return w.establishInheritedKeyless()
+		}
+	}
 	if variant == 4 || variant == 5 {
 		return w.establishMinted(variant)
 	}
@@ -725,7 +763,7 @@ func genCase(t *rapid.T) Case {
 	var c Case
 	c.Own = rapid.Bool().Draw(t, "own")
 	c.Map = rapid.Bool().Draw(t, "map")
-	c.Ops = append(c.Ops, Op{K: "establish", V: rapid.IntRange(0, 7).Draw(t, "v0")})
+	c.Ops = append(c.Ops, Op{K: "establish", V: rapid.IntRange(0, 8).Draw(t, "v0")})
 	n := rapid.IntRange(3, 12).Draw(t, "nops")
 	for i := 0; i < n; i++ {
 		k := rapid.SampledFrom([]string{"establish", "resume", "resume", "expire", "invalidate", "invalidate-inflight", "attack", "attack", "attack", "replay", "replay"}).Draw(t, "op")
@@ -767,7 +805,7 @@ func TestC06Histories(t *testing.T) {
 // TestC06Sweep: every attack kind at every point of a session's lifetime.
 func TestC06Sweep(t *testing.T) {
 	bad := 0
-	for est := 0; est < 8; est++ {
+	for est := 0; est < 9; est++ {
 		for _, life := range []string{"fresh", "resumed1", "resumed3", "expired-lazy", "expired-swept", "invalidated", "invalidated-inflight"} {
 			for kind := 0; kind < 9; kind++ {
 				for _, rr := range []bool{true, false} {
@@ -832,7 +870,7 @@ func TestC06Sweep(t *testing.T) {
 		}
 	}
 	ev.Exhaustive("6 establishment kinds x 12 hostile request-ad attribute sets x {key holder, wrong key, no key} x {reply requested, not} x {global, own cache}")
-	ev.Exhaustive("8 establishment kinds (4 negotiated with CLAIMTOBE/none, 2 minted from a claim id, 2 negotiated with TOKEN: with a cipher and without) x 7 lifetime points (incl. invalidated while a resumption was in flight) x 9 attack kinds x {reply requested, not} x {server on the global cache, server with its own cache}, each followed by an honest resume and replays of both directions")
+	ev.Exhaustive("9 establishment kinds (4 negotiated with CLAIMTOBE/none, 2 minted from a claim id, 2 negotiated with TOKEN: with a cipher and without, 1 inherited without key material) x 7 lifetime points (incl. invalidated while a resumption was in flight) x 9 attack kinds x {reply requested, not} x {server on the global cache, server with its own cache}, each followed by an honest resume and replays of both directions")
 }
 
 func TestC06Replay(t *testing.T) {
